@@ -1327,7 +1327,7 @@ func (u *Unit) closureFacts(st *State, c *Closure) {
 	for _, f := range fs.Facts {
 		st.assume(u.evalBool(env, f.Expr))
 	}
-	u.note("closure facts of " + relName(c.fn) + " are justified by that literal's own verified contract (captured variables are assumed not to be reassigned after the literal is created)")
+	u.note("closure facts of " + relName(c.fn) + " are justified by that literal's own verified contract (that its captured variables are not reassigned is the package scan closure.captures.stable)")
 }
 
 func (u *Unit) lastArgType(ev string, n int) types.Type {
